@@ -99,8 +99,12 @@ class Syn:
             self.names.remove(v)
             return kind % (el, v, src, cond)
         if c == 16:
-            return "%s(%s)" % (self.pick(["len", "str", "repr", "list", "tuple", "id", "type", "print", "sorted", "abs", "bool"]),
-                                self.call_args(d))
+            fn = self.pick(["len", "str", "repr", "list", "tuple", "id", "type", "print", "sorted", "abs", "bool"])
+            # builtins get a call that fits their signature (Cython checks the C signature of mapped builtins at
+            # compile time: a recorded finding class); arbitrary argument lists go to print() and to object calls
+            if fn != "print" and not self.chance(0.04):
+                return "%s(%s)" % (fn, o())
+            return "%s(%s)" % (fn, self.call_args(d))
         if c == 17:
             return "%s[%s]" % (self.patom(d), self.pick([o(), "%s:%s" % (o(), o()), "::%s" % o(), ":", "%s, %s" % (o(), o()),
                                                            "..., %s" % o(), "%s:%s:%s" % (o(), o(), o()), "*%s" % self.name()]))
